@@ -323,10 +323,11 @@ def identities(tier):
                 cs.append(PairCase("flatten=reshape", {"shape": shape, "start": s_, "end": e}, [L("a", shape)],
                                    lambda T, s_=s_, e=e: F.flatten(T["a"], s_, e), lambda T, tgt=tgt: F.reshape(T["a"], tgt)))
         for d in range(n - 1):
-            cs.append(PairCase("movedim(adjacent)=transpose", {"shape": shape, "dims": (d, d + 1)}, [L("a", shape)],
-                               lambda T, d=d: F.movedim(T["a"], d, d + 1), lambda T, d=d: F.transpose(T["a"], d, d + 1)))
-            cs.append(PairCase("movedim(adjacent)=transpose", {"shape": shape, "dims": (d + 1, d)}, [L("a", shape)],
-                               lambda T, d=d: F.movedim(T["a"], d + 1, d), lambda T, d=d: F.transpose(T["a"], d + 1, d)))
+            # every spelling of the two adjacent dims (non-negative / negative, on either side), both directions; transpose is always given the non-negative pair
+            for d0, d1 in ((d, d + 1), (d + 1, d)):
+                for s0, s1 in ((d0, d1), (d0 - n, d1 - n), (d0, d1 - n), (d0 - n, d1)):
+                    cs.append(PairCase("movedim(adjacent)=transpose", {"shape": shape, "dims": (s0, s1)}, [L("a", shape)],
+                                       lambda T, s0=s0, s1=s1: F.movedim(T["a"], s0, s1), lambda T, d0=d0, d1=d1: F.transpose(T["a"], d0, d1)))
     # ---- conv = unfold o matmul ; pool = windows o max/mean
     pairs = [(REP_1D[i], REP_1D[j]) for i, j in ([(1, 2), (3, 6), (4, 7), (8, 0), (5, 5), (9, 11)] if tier == "quick" else itertools.product(range(0, 12, 2), range(1, 12, 3)))]
     for (H, kh, sh, ph, dh), (W, kw, sw, pw, dw) in pairs:
